@@ -486,7 +486,8 @@ class FuncEmitter:
             op, x, y = a
             ty = i.ty
             if op == 'sub' and all(v[0] == 'reg' and v[1] in s.pl for v in (x, y)):
-                s.S(f"{D} = (uint64_t)(({env[x[1]]}) - ({env[y[1]]}));"); return
+                # integer difference of the addresses (cbmc's pointer check flags 'p - q' when both are null, as for an empty vector)
+                s.S(f"{D} = (uint64_t)((uintptr_t)({env[x[1]]}) - (uintptr_t)({env[y[1]]}));"); return
             A = G.val(ty, x, env); B = G.val(ty, y, env)
             ct = G.ctype(ty)
             if op in ('add', 'sub', 'mul', 'and', 'or', 'xor', 'udiv', 'urem'):
@@ -842,6 +843,55 @@ class FuncEmitter:
         else:
             raise Unsupported("intrinsic " + cn)
 
+    def vtables(s):
+        """[(vtable global, own typeinfo global, ancestor typeinfos, functions in the table)]"""
+        M = s.M
+        if hasattr(s.G, '_vts'): return s.G._vts
+        base = {}
+        for g, Gl in M.globs.items():
+            if g.startswith('@_ZTI') and Gl.init is not None and Gl.init[0] == 'agg':
+                bs = []
+                for (t_, v_) in Gl.init[2][2:]:
+                    gl = []; val_globs(v_, gl)
+                    bs += [x for x in gl if x.startswith('@_ZTI')]
+                base[g] = bs
+        def ancestors(ti, seen=()):
+            out = []
+            for b in base.get(ti, []):
+                if b not in seen: out += [b] + ancestors(b, seen + (b,))
+            return out
+        res = []
+        for g, Gl in M.globs.items():
+            if not g.startswith('@_ZTV') or Gl.init is None or Gl.init[0] != 'agg': continue
+            ti = None; ents = []
+            for (aty, arr) in Gl.init[2]:
+                if arr[0] != 'agg': continue
+                for k, (et, ev) in enumerate(arr[2]):
+                    gl = []; val_globs(ev, gl)
+                    for x in gl:
+                        if x.startswith('@_ZTI') and ti is None: ti = x
+                        elif x in M.funcs: ents.append(x)
+            res.append((g, ti, ancestors(ti) if ti else [], ents))
+        s.G._vts = res
+        return res
+
+    def typeinfo_names(s):
+        if hasattr(s.G, '_tinames'): return s.G._tinames
+        import subprocess
+        tis = [g for g in s.M.globs if g.startswith('@_ZTI')]
+        out = {}
+        if tis:
+            r = subprocess.run(['c++filt'], input='\n'.join(t[1:] for t in tis), stdout=subprocess.PIPE, text=True)
+            for t, d in zip(tis, r.stdout.split('\n')):
+                out[t] = re.sub(r'\s+', '', d.replace('typeinfo for ', ''))
+        s.G._tinames = out
+        return out
+
+    def fn_of_class(s, fn, ti):
+        c = ti[len('@_ZTI'):]
+        inner = c[1:-1] if (c.startswith('N') and c.endswith('E')) else c
+        return fn.startswith('@_ZN' + inner) or fn.startswith('@_ZNK' + inner)
+
     def icall_candidates(s, reg, call):
         M, G = s.M, s.G
         defs = {}
@@ -863,15 +913,33 @@ class FuncEmitter:
                 slot = 0
             if slot is not None:
                 out = []
-                for g, Gl in M.globs.items():
-                    if not g.startswith('@_ZTV') or Gl.init is None or Gl.init[0] != 'agg': continue
+                vts = s.vtables()
+                # static type of the object the call is made on restricts the candidate vtables to that class hierarchy
+                allowed = None
+                if call.a[1]:
+                    tt = repr(call.a[1][0][0])
+                    owners = set()
+                    for (g, ti, anc, ents) in vts:
+                        for fn in ents:
+                            f = M.funcs.get(fn)
+                            if f is not None and f.params and repr(f.params[0][0]) == tt:
+                                for (g2, ti2, anc2, ents2) in vts:
+                                    if ti2 and s.fn_of_class(fn, ti2): owners.add(ti2)
+                    if not owners:
+                        # abstract bases often have no emitted vtable: match the IR struct name against demangled typeinfo names
+                        want = re.sub(r'\s+', '', re.sub(r'^%"?(class|struct)\.', '', tt.rstrip('*')).rstrip('"'))
+                        want = re.sub(r'\.\d+$', '', want)
+                        for ti, nm in s.typeinfo_names().items():
+                            if nm == want: owners.add(ti)
+                    if owners:
+                        allowed = [v for v in vts if v[1] in owners or (set(v[2]) & owners)]
+                for (g, ti, anc, ents) in (allowed if allowed else vts):
+                    k = 2 + slot
+                    Gl = M.globs[g]
                     for (aty, arr) in Gl.init[2]:
                         if arr[0] != 'agg': continue
-                        ents = arr[2]
-                        # address point: first entry after the RTTI pointer (index 2 for single inheritance)
-                        k = 2 + slot
-                        if 0 <= k < len(ents):
-                            gl = []; val_globs(ents[k][1], gl)
+                        if 0 <= k < len(arr[2]):
+                            gl = []; val_globs(arr[2][k][1], gl)
                             for fn in gl:
                                 if fn in M.funcs and sig_ok(fn) and fn not in out: out.append(fn)
                 if out: return out
